@@ -130,55 +130,62 @@ def check_ctor_folds(ctx):
         ctx.holds(rule, fi, 'Optional(default omitted) -> None', 'optional fields default to None unless given', fi.node.lineno, clause='a')
     else:
         ctx.violation(rule, fi, 'Optional(default omitted) -> %s' % (canon(d) if d is not None else None), 'expected default=None stored unchanged', fi.node.lineno, clause='a')
-    # ---- Ref
+    # ---- Ref: the paths of __init__ with whatever helper it delegates to expanded
     ci = repo.cls('Ref')
     ini = ci.methods.get('__init__')
-    fi = None
-    helper = None
-    if ini is not None:
-        for n_ in ast.walk(ini.node):
-            if isinstance(n_, ast.Call) and isinstance(n_.func, ast.Attribute) and canon(n_.func.value) == 'self' and [canon(a) for a in n_.args] == ['prototype', 'default']:
-                helper = n_.func.attr
-                fi = ci.methods.get(helper)
-    if fi is None or ini is None:
-        raise Undecided('cannot find the default-selection helper that Ref.__init__ calls with (prototype, default)')
+    if ini is None:
+        raise Undecided('Ref.__init__ not found')
+    names = [x.arg for x in ini.node.args.args]
+    if len(names) < 2 or 'default' not in names:
+        raise Undecided('Ref.__init__ does not take (self, prototype, ..., default)')
+    P, D = names[1], 'default'
     ctx.unit('functions', 2)
+    fi = ini
     seen = set()
-    for p in w.paths(fi.node, cls=ci):
+    for p in w.paths(ini.node, cls=ci):
         gt = gtexts(p)
-        dyn = any(g.startswith('(callable(prototype) or isinstance(prototype') for g in gt)
-        pkt = 'isinstance(prototype, Packet)' in gt
-        none = '(default is None)' in gt
-        s = last_store(p, 'default')
+        shortcut = ('isinstance(%s, type)' % P) in gt
+        I = '%s()' % P if shortcut else P
+        dyn_marks = ('callable(%s)' % I, 'isinstance(%s, (UnaryExpr, BinaryExpr, NaryExpr,))' % I,
+                     '(callable(%s) or isinstance(%s, (UnaryExpr, BinaryExpr, NaryExpr,)))' % (I, I))
+        dyn = any(g in dyn_marks for g in gt)
+        pkt = ('isinstance(%s, Packet)' % I) in gt and not dyn
+        none = ('(%s is None)' % D) in gt
+        given = ('(%s is not None)' % D) in gt
+        s_ = last_store(p, 'default')
+        who = 'Ref(PacketClass)' if shortcut else 'Ref(instance)'
         if dyn and none:
             seen.add('dyn-none')
             if p.raises() and call_name(p.end[1]) == 'ValueError':
                 ctx.holds(rule, fi, 'Ref(callable, default omitted) -> ValueError', 'a run-time selected reference needs an explicit default', fi.node.lineno, clause='a')
             else:
                 ctx.violation(rule, fi, 'Ref(callable, default omitted) -> %s' % p.describe()['end'], 'a callable / expression prototype without default must be rejected', fi.node.lineno, clause='a')
-        elif dyn:
+        elif dyn and given:
+            if p.raises():
+                continue          # e.g. embed with a non-packet prototype
             seen.add('dyn-given')
-            if s is not None and canon(s.value) == 'default':
+            if s_ is not None and canon(s_.value) == D:
                 ctx.holds(rule, fi, 'Ref(callable, default=d) -> d', 'the given default', fi.node.lineno, clause='a')
             else:
-                ctx.violation(rule, fi, 'Ref(callable, default=d) -> %s' % (canon(s.value) if s else None), 'the given default must be kept', fi.node.lineno, clause='a')
+                ctx.violation(rule, fi, 'Ref(callable, default=d) -> %s' % (canon(s_.value) if s_ else None), 'the given default must be kept', fi.node.lineno, clause='a')
         elif pkt and none:
-            seen.add('pkt')
-            if s is not None and call_name(s.value) in ('copy.deepcopy', 'deepcopy') and canon(s.value.args[0]) == 'prototype':
-                ctx.holds(rule, fi, 'Ref(packet) -> deepcopy(prototype)', 'a fresh copy of the prototype', fi.node.lineno, clause='a')
+            if p.raises():
+                continue
+            seen.add('pkt-class' if shortcut else 'pkt')
+            if s_ is not None and call_name(s_.value) in ('copy.deepcopy', 'deepcopy') and canon(s_.value.args[0]) == I:
+                ctx.holds(rule, fi, '%s -> deepcopy(%s)' % (who, I), 'a fresh copy of the prototype packet', fi.node.lineno, clause='a')
             else:
-                ctx.violation(rule, fi, 'Ref(packet) -> %s' % (canon(s.value) if s else None), 'the default of a packet reference is a deep copy of its prototype', fi.node.lineno, clause='a')
-        elif pkt:
+                ctx.violation(rule, fi, '%s -> %s' % (who, canon(s_.value) if s_ else None), 'the default of a packet reference is a deep copy of its prototype', fi.node.lineno, clause='a')
+        elif pkt and given:
             seen.add('pkt-given')
             if not p.raises():
                 ctx.violation(rule, fi, 'Ref(packet, default=d)', 'a packet prototype with an extra default must be rejected', fi.node.lineno, clause='a')
     if not {'dyn-none', 'dyn-given', 'pkt'} <= seen:
         ctx.violation(rule, fi, 'Ref default cases %s' % sorted(seen), 'expected the callable-without-default, callable-with-default and packet cases', fi.node.lineno, clause='a')
-    src = unparse(ini.node)
-    if 'if isinstance(prototype, type):' in src and 'prototype = prototype()' in src and ('self.%s(prototype, default)' % helper) in src:
+    if 'pkt-class' in seen:
         ctx.holds(rule, ini, 'Ref(PacketClass) == Ref(PacketClass()); default rule applied to the instance', 'class shortcut', ini.node.lineno, clause='a')
     else:
-        ctx.violation(rule, ini, 'Ref.__init__', 'the packet-class shortcut or the default rule is missing', ini.node.lineno, clause='a')
+        ctx.violation(rule, ini, 'Ref.__init__', 'the packet-class shortcut (a class is instantiated and then treated as the prototype packet) is missing', ini.node.lineno, clause='a')
 
 
 def check_inits(ctx):
